@@ -96,7 +96,7 @@ func parent() int {
 			sh := (i + seed) % shards
 			cmd := exec.Command(os.Args[0], "-test.run", "^TestWorker$", "-test.timeout", "0")
 			cmd.Env = append(os.Environ(), "VERIF_ROLE=worker", fmt.Sprintf("VERIF_SHARD=%d/%d", sh, shards),
-				"VERIF_OUT="+filepath.Join(tmp, fmt.Sprintf("shard-%d.json", sh)), "VERIF_DEADLINE_S="+deadline, "GOMAXPROCS=2")
+				"VERIF_OUT="+filepath.Join(tmp, fmt.Sprintf("shard-%d.json", sh)), "VERIF_DEADLINE_S="+deadline, "GOMAXPROCS=1", "GOGC=400")
 			outs[i], errs[i] = cmd.CombinedOutput()
 		}(i)
 	}
